@@ -42,5 +42,7 @@ Record facts : Set := {
   f_sqlite_source_filter_exact : bool; (* the status conditions although their contexts subclass StatusContext *)
   (* get_valid_conditions in both stores *)
   f_mem_pending_read_complete : bool;    (* the loop iteration sees every pending valid condition *)
-  f_sqlite_pending_read_complete : bool  (* (no WHERE / LIMIT / partial fetch) *)
+  f_sqlite_pending_read_complete : bool; (* (no WHERE / LIMIT / partial fetch) *)
+  f_mem_pending_in_place : bool   (* MemTrigger never re-binds self._valid_conditions outside __init__: the dict object a
+                                     reporter thread loaded stays the one the loop iteration reads *)
 }.
